@@ -1,7 +1,7 @@
 #!/usr/bin/env bash
 # usage: tools/tryseed.sh <patch.diff> <Cnn> [more Cnn...]   — applies the patch to /repo, runs the quick checks, reverts.
 set -u
-P="$1"; shift
+P="$(readlink -f "$1")"; shift
 cd /verif
 if ! git -C /repo diff --quiet; then echo "/repo is dirty; refusing"; exit 2; fi
 git -C /repo apply "$P" || { echo "patch does not apply"; exit 2; }
